@@ -91,9 +91,11 @@ WSCB_RUN = {"harness": "hwscb", "driver": "wscbdrv", "corpus": "wscb", "fields":
 PROPS = {
     "C14": {
         "manifest": {
-            "text": "Lean theorems on (A) the composition of the per-message receive steps with the connection's job queue (the JobQ "
-                    "transition system itself): callback log = prefix of open . msg0..msgk . close, complete when the drainer is "
-                    "idle, open first, close exactly once and last, nothing twice, single drainer; (B) the writer model (direct "
+            "text": "Lean theorems on (A) the composition of the per-message receive steps with the connection's job queue (C05's "
+                    "ExecQ itself, bridge c14_queue_is_execq): completed jobs = prefix of open . msg0..msgk . close, complete "
+                    "when no drainer is left, strictly serial start/end log (every callback ends before the next starts; "
+                    "the open callback has completed before any message callback starts), close exactly once and last, "
+                    "nothing twice, no ws callback at all when the upgrade fails because the conn was closed first; (B) the writer model (direct "
                     "mode and the asynchronous send queue with its drainer, bound, failures and CloseAndClean): for every "
                     "interleaving the conn's frame stream is a prefix of the concatenation of the whole frame groups of the calls "
                     "that returned nil, each at most once, exactly that concatenation when idle and alive; tied to the code by "
@@ -115,7 +117,14 @@ PROPS = {
                 "conn write; e2e case = upgrade path x send mode x (messages, writers, size); distinct by hash of the schedule "
                 "string and outcome; non-trivial iff >= 2 submitters (calls / messages)",
         "assumptions": ["Parse is called by one goroutine at a time per connection (poller or the single read task: C02)",
-                        "nbio.Conn.Execute/MustExecute behave as JobQ (C05 correspondence)",
+                        "the connection's job queue is C05's ExecQ (instance conn): WsCb embeds ExecQ.St and every step performs "
+                        "one ExecQ.step (c14_queue_is_execq); C05's correspondence ties ExecQ to Conn.Execute/MustExecute",
+                        "the close job is submitted once per connection (C03/C18: close callback exactly once)",
+                        "WriteMessage is one step of SendQ: that all fragments are written inside one hold of the ws mutex is "
+                        "the predicates ws_writemessage_locked / ws_writeframe_only_under_lock plus the wd oracle under "
+                        "concurrent callers, not a refinement proof",
+                        "wd cases: the order of the critical sections (order=) is read from the implementation's wire; e2e "
+                        "cases compare the callback log and (whole, groups) summaries",
                         "a client does not send frames before it has received the 101 response",
                         "scheduling-dependent observations are re-run 3 times before they are reported"],
     },
